@@ -311,8 +311,12 @@ def _locate_droplets_in_mask_cylindrical(mask: ScalarField) -> Emulsion:
             for droplet in candidates:
                 # correct for the additional padding of the array
                 droplet.position[2] -= grid.length
-                # check whether the droplet lies in the original box
-                if z_min <= droplet.position[2] <= z_max:
+                # check whether the droplet lies in the original box. We use a half-open
+                # interval (shifted by a tiny tolerance), so droplets centered exactly
+                # on the periodic boundary are not counted on both sides of the box
+                tol = 1e-10 * grid.length
+                if z_min - tol <= droplet.position[2] < z_max - tol:
+                    droplet.position[2] = max(droplet.position[2], z_min)
                     droplets.append(droplet)
 
             _logger.info("Kept %d central droplets.", len(droplets))
